@@ -699,6 +699,10 @@ func (l *lane) runCli(tc *tcase, c *acase, out emitter) {
 				res2, state2, _, _ = l.cliOnce(&goodCli, false)
 				r.Sentinel = state2 == "returned" && res2.Ok
 			}
+			l.sentinelLastResort(&r, res2, state2, func() (clientRes, string) {
+				x, s, _, _ := l.cliOnceD(&goodCli, false, 16)
+				return x, s
+			})
 		}
 		out.Emit(r)
 	}
@@ -1045,15 +1049,41 @@ func (l *lane) runCsCli(tc *tcase, c *acase, out emitter) {
 		r.Detail = res.Err
 	}
 	if r.Outcome == "served" || r.Outcome == "dropped" {
+		var res2 clientRes
+		var state2 string
 		for k := 0; k < 2 && !r.Sentinel; k++ {
-			res2, state2, _, _ := l.csCliOnce(&goodCsCli)
+			res2, state2, _, _ = l.csCliOnce(&goodCsCli)
 			r.Sentinel = state2 == "returned" && res2.Ok
 			if state2 != "returned" {
 				break
 			}
 		}
+		l.sentinelLastResort(&r, res2, state2, func() (clientRes, string) {
+			x, s, _, _ := l.csCliOnceD(&goodCsCli, 1600)
+			return x, s
+		})
 	}
 	out.Emit(r)
+}
+
+// sentinelLastResort: a client child that RETURNED from the sentinel call (so it is alive and its
+// loops make progress) but reported an i/o timeout twice, with the longer deadline each time, most
+// likely ran on a machine too busy for the responder and the child to meet within the deadline
+// (observed at load averages of 60-90).  One more call with a deadline of seconds decides: answered
+// -> sentinel answered; timed out again with the child alive and not burning CPU -> the harness
+// could not make the observation ("stall", not judged, counted); anything else (an error other than
+// a timeout, a dead or spinning child) stands as recorded.
+func (l *lane) sentinelLastResort(r *rec, res2 clientRes, state2 string, long func() (clientRes, string)) {
+	if r.Sentinel || !(r.Outcome == "served" || r.Outcome == "dropped") || !timedOut(res2, state2) {
+		return
+	}
+	res3, state3 := long()
+	switch {
+	case state3 == "returned" && res3.Ok:
+		r.Sentinel = true
+	case timedOut(res3, state3) && l.cli != nil && !l.cli.exited() && !l.cli.spinning(100*time.Millisecond):
+		r.Outcome, r.Detail = "stall", "client sentinel timed out three times with growing deadlines; the child is alive and idle"
+	}
 }
 
 // ----------------------------------------------------------------- driver
